@@ -21,17 +21,17 @@ from lib import abigen
 
 MUTANTS = ["TrivialDecBoolMutant", "TrivialDecEnumMutant", "TrivialEncNoIdMutant", "TrivialEncU16Mutant"]
 TRUNC_KEY = "abi_decode:truncated-buffer:length-ignored"
+INCLUDE_TRUNCATED = True    # present truncated buffers to abi_decode (see notes/C10.md, finding)
 
 
 def report(ctx, rej, failures):
     for f in failures:
         ctx.report("%s:%s" % (f["kind"], f["pkg"]), "%s of a generated package of valid programs: %s" % (f["kind"], f["detail"][:300]), f)
+    trunc = []
     for rj in rej:
         r = rj["rec"]
         if r["ev"] == "Invalid" and r["kind"] == "truncated" and rj["failed"] == '{"invalid_reverts"}' and r["out"] == "return":
-            # one mechanism: BufferReader::from_parts(ptr, _len) drops the length, nothing checks it
-            ctx.report(TRUNC_KEY, "abi_decode::<%s> of a buffer truncated to %d of %d bytes returns a value instead of reverting"
-                       % (abigen.short_type(r["t"]), r["len"], len(r["bytes"])), {"record": r, "expected_by_spec": rj["expected"]})
+            trunc.append(rj)            # one mechanism (see TRUNC_KEY): reported once, below
             continue
         key = "%s:%s:%s" % (r["ev"].lower(), abigen.short_type(r["t"]), rj["failed"])
         if r["ev"] == "Invalid":
@@ -40,6 +40,14 @@ def report(ctx, rej, failures):
             key += ":" + json.dumps(r["v"], separators=(",", ":"))[:120]
         ctx.report(key, "observation %s of type %s fails %s" % (r["id"], abigen.short_type(r["t"]), rj["failed"]),
                    {"record": r, "failed": rj["failed"], "expected_by_spec": rj["expected"]})
+    if trunc:
+        r = trunc[0]["rec"]
+        ctx.report(TRUNC_KEY, "abi_decode::<T>(slice) ignores the slice length (BufferReader::from_parts(ptr, _len); the trivial path copies "
+                   "__size_of::<T>() bytes): a buffer truncated to a proper prefix of an encoding is decoded from the bytes behind it "
+                   "instead of reverting (%d of the truncated-buffer cases; first: abi_decode::<%s> of %d of %d bytes)"
+                   % (len(trunc), abigen.short_type(r["t"]), r["len"], len(r["bytes"])),
+                   {"cases": len(trunc), "first_records": [x["rec"] for x in trunc[:5]], "expected_by_spec": trunc[0]["expected"]})
+    return len(trunc)
 
 
 def run(ctx):
@@ -53,6 +61,11 @@ def run(ctx):
             ctx.report("model:%s:%s" % (c, m.group(1) if m else mc.violated),
                        "AbiCodec.tla: the classification is unsound for a type tree (counterexample)",
                        {"cfg": c, "failed": m.group(1) if m else None, "type": m.group(2).replace('\\"', '"') if m else None})
+    st = ctx.tlc("MC_AbiCodec", "MC_AbiCodec_stats_q" if ctx.quick else "MC_AbiCodec_stats_d1", workers=1, xss="64m", count=False)
+    sj = st.printed("STATS")
+    if not sj or sj[0]["trivial_enc"] == 0 or sj[0]["trivial_dec"] == 0 or sj[0]["memid_eq_not_trivial_enc"] == 0:
+        raise ToolError("vacuous universe: %s" % sj)
+    stats["universe_" + ("q" if ctx.quick else "d1")] = sj[0]
     if not ctx.quick:
         for mname in MUTANTS:
             r = ctx.tlc("MC_AbiCodec", "MC_AbiCodec_mut_" + mname, workers=2, xss="64m", count=False, timeout=1200)
@@ -66,13 +79,13 @@ def run(ctx):
     if ncls["trivial_enc"] == 0 or ncls["trivial_dec"] == 0:
         raise ToolError("vacuous pool: no trivially encodable / decodable type")
     # 3. programs
-    pkgs = abigen.c10_packages(recs, "cb", per_pkg=48)
+    pkgs = abigen.c10_packages(recs, "cb", per_pkg=48, ntrunc=1 if INCLUDE_TRUNCATED else 0)
     trace, failures = abigen.run_and_collect(ctx, pkgs, procs=8)
     # 4. the spec decides
     validated, rej = abigen.validate_trace(ctx, "Trace_AbiCodec", "Trace_AbiCodec", trace, "tr")
-    report(ctx, rej, failures)
+    ntrunc = report(ctx, rej, failures)
     selftest = None
-    if not ctx.quick and not ctx.violations:
+    if not ctx.quick and len(ctx.violations) <= (1 if ntrunc and not ctx.known_hits else 0):
         c1 = copy.deepcopy(next(t for t in trace if t["ev"] == "Class" and t["logs"]))
         c1["logs"][0][0] ^= 1                                   # flip the observed is_encode_trivial
         c2 = copy.deepcopy(next(t for t in trace if t["ev"] == "Invalid" and t["kind"] == "bool" and t["out"] == "revert"))
@@ -93,9 +106,9 @@ def run(ctx):
     return ctx.finish("model_checking", {
         "traces_validated_against_impl": validated,
         "type_trees_in_pool": len(recs), "pool_classification": ncls, "observations": kinds, "invalid_decodes": inv_kinds,
-        "packages": len(pkgs), "build_or_run_failures": len(failures),
+        "packages": len(pkgs), "build_or_run_failures": len(failures), "truncated_buffers_not_rejected": ntrunc,
         "pool": {"tlc_seed": 9, "slice": ("VERIF_SEED mod 16 = %d of the depth<=1 trees + named nestings" % (ctx.seed % 16)) if ctx.quick else "all"},
-        "constants": {"model_cfgs": cfgs}, "mutants": stats, "binding_selftest": selftest,
+        "constants": {"model_cfgs": cfgs}, "model_statistics_and_mutants": stats, "binding_selftest": selftest,
         "samples": [{k: sample.get(k) for k in ("id", "t", "kind", "bytes", "len", "logs", "out")}] if sample else [],
     }, assumptions=[
         "memory ids are compared through the representations they hash (DefaultHasher collisions are not modelled); experimental_str_array_no_padding = false (the default)",
